@@ -23,6 +23,12 @@ def run_one(pid, tier):
     except ModuleNotFoundError:
         print(f'ANALYSIS-ERROR property={pid} no check implemented')
         return 2
+    except Exception:
+        import traceback
+        traceback.print_exc()
+        print(f'ANALYSIS-ERROR property={pid} the checker itself does not '
+              'load')
+        return 2
     thorough_extra = None
     try:
         from . import selfval
